@@ -67,7 +67,7 @@ func checkCli(c CliCase) error {
 	dir := cli.Scratch()
 	extra, stdin, files, _ := cli.Present(c.InMode, in.String(), "-i")
 	for n, content := range files {
-		cli.Write(dir, n, content)
+		cli.WriteIn(dir, n, content)
 	}
 	args := append([]string{"stats", "splits"}, extra...)
 	r := cli.Run(dir, stdin, args...)
